@@ -233,6 +233,21 @@ PAIRS['BAD4'] = ("""<schema><sectiontype name="ta"><key name="ka"/><multikey nam
  <sectiontype name="tc"><key name="ka"/><multikey name="kl"/><key name="kb"/><key name="KA" attribute="other"/></sectiontype>
  <section type="tc" name="*" attribute="sc"/></schema>""", {})
 
+# a type that nests sections of its own type, extended: the inherited slot still takes the BASE type
+PAIRS['REC'] = ("""<schema>
+ <sectiontype name="nd"><key name="ka" default="1"/><multisection type="nd" name="*" attribute="ch"/></sectiontype>
+ <sectiontype name="fo" extends="nd"><key name="kb"/></sectiontype>
+ <sectiontype name="fp" extends="fo"><key name="kc"/></sectiontype>
+ <multisection type="fo" name="*" attribute="fs"/>
+ <multisection type="fp" name="*" attribute="ps"/>
+</schema>""", """<schema>
+ <sectiontype name="nd"><key name="ka" default="1"/><multisection type="nd" name="*" attribute="ch"/></sectiontype>
+ <sectiontype name="fo"><key name="ka" default="1"/><multisection type="nd" name="*" attribute="ch"/><key name="kb"/></sectiontype>
+ <sectiontype name="fp"><key name="ka" default="1"/><multisection type="nd" name="*" attribute="ch"/><key name="kb"/><key name="kc"/></sectiontype>
+ <multisection type="fo" name="*" attribute="fs"/>
+ <multisection type="fp" name="*" attribute="ps"/>
+</schema>""", {})
+
 PAIRS['CMP'] = ("""<schema>
  <import package="vfpk_a"/>
  <import package="vfpk_b"/>
